@@ -3,7 +3,7 @@ CONFIG = {
     "manifest": {'level_text': 'MODEL LEVEL (Properties_C02.v): oas_writer_conforms - for EVERY well-formed library of the covered subset (polygons, simple FlexPaths with flush / half-width / extended ends, labels, references by number or name with every transform, every repetition type, user properties with name / string interning, CELLNAME / TEXTSTRING / PROPNAME tables in gdstks hash-map slot order, END record; with and without S_CELL_OFFSET) the statement-level model write_oas_model of Library::write_oas emits a file that the strict decoder accepts and that decodes to the saved library; oas_models_roundtrip - composed with oas_reader_accepts_spec_partial (statement-level model read_oas_model of read_oas), loading what was saved returns the library, UNCONDITIONALLY for every well-formed library of the covered subset with 32-bit tags and fewer than 2^31 vertices / 2^26 names (oas_models_roundtrip_full; writer_output_covered shows that what the writer model emits always lies in the class on which the reader theorem holds: minimal encodings, PROPERTY records only after START / elements / CELLNAME, distinct cell numbers); S_CELL_OFFSET values point at the CELL records; the written repetition denotes the saved offsets. write_oas_model is compared BYTE FOR BYTE with the real writer, read_oas_model dump for dump with the real reader (C04), on every run. The OASIS-real encoder brings in the four standard-library axioms Flocq depends on. SPECIFICATION LEVEL: Theorems (closed under the global context) on a specification-level Gallina model of the OASIS element records: spec_oas_decode (spec_oas_encode choices L) = Some L for every well-formed layout, every modal-variable / explicit-field choice and XY mode, with one round-trip theorem per record kind (RECTANGLE, POLYGON, PATH, TRAPEZOID x3, CTRAPEZOID, CIRCLE, TEXT, PLACEMENT x2), all repetition types and point lists; rectangle and trapezoid DETECTION (the statement-level model of the static is_rectangle / is_trapezoid, compared with the real functions on 20k+ polygons per run) is proved sound: whatever record the writer selects decodes to the same vertex cycle; the generated CTRAPEZOID table of read_oas equals the specification table on every run. The round trip through the real Library::write_oas / read_oas under all option words, compression levels and repeated cycles is decided on the implementation by an oracle (canonical grid dumps, signature validation, circle tolerance).', 'level_note': "The statement-level models write_oas_model / read_oas_model cover the subset named above (compression level 0, validation scheme 0, no detection flags, no RobustPath / non-simple path outlines); for everything outside that subset - compressed blocks (zlib), signatures (crc32 / checksum32), rectangle / trapezoid / circle detection flags in the writer, outline polygons of non-simple paths - 'load(save L) = canon L' for the real reader and writer is established per run by the oracle, not by a theorem. Known findings (recorded): negative ExplicitX/Y coordinates written as unsigned; a one-grid-step path segment is merged away on the second cycle; circle detection far from the origin. Five defects were repaired by fix: commits.", 'technique': 'Coq round-trip theorems on a specification-level OASIS model + proved shape-detection soundness + implementation-level round-trip oracle over all writer options'},
     # model level: write_oas_model / read_oas_model and their composition; the specification-level theorems are shared with C04
     "prop_file": "Properties_C02",
-    "extra_prop_files": ["Properties_C04", "Properties_C02C", "Properties_C02D", "Properties_C18S"],   # + compressed blocks (OasisCblock*.v), signatures (OasisSig.v)
+    "extra_prop_files": ["Properties_C04", "Properties_C02C", "Properties_C02D", "Properties_C18S", "Properties_C01G"],   # + compressed blocks (OasisCblock*.v), signatures (OasisSig.v)
     "units": [
         {"harness": "c02", "thorough_seeds": 2},
         # Library::write_oas against its statement-level Coq model, byte for byte (uncompressed, covered subset)
@@ -12,6 +12,8 @@ CONFIG = {
         # compression: read_oas on files with CBLOCKs (written by write_oas at levels 1-9, hand-encoded, damaged) against
         # read_oas_model_c, write_oas at level > 0 against write_oas_model_c byte for byte (zlib as finite tables)
         {"harness": "oas_cblock", "driver": "oas_cblock", "extracted": ["oas_cblock"], "extract_file": "Extract_OasCblock", "module": "checks.oas_cblock", "thorough_seeds": 1},
+        # rounding to the grid and back in binary64 (scaling, llround, START real, factor, accumulated point lists): GridRound.v
+        {"harness": "grid_round", "driver": "grid_round", "extracted": ["grid_round"], "extract_file": "Extract_GridRound", "module": "checks.grid_round", "kinds": "ow,or", "thorough_seeds": 1},
         # signatures: the signed END record of write_oas and oas_validate against OasisSig.v (crc32 / checksum32 in Coq)
         {"harness": "oas_sig", "driver": "oas_sig", "extracted": ["oas_sig"], "extract_file": "Extract_C18S", "module": "checks.oas_sig", "kinds": "wsig,end,val", "thorough_seeds": 1},
     ],
